@@ -370,7 +370,11 @@ pub struct Rendered {
     pub stats: LayoutStats,
 }
 
-const COMMENTS: [&str; 8] = [
+const COMMENTS: [&str; 11] = [
+    // a comment runs to the line feed: a carriage return in it is part of the comment
+    "# was\r1 1",
+    "#\r end loop",
+    "# a \r\r( b",
     "#",
     "# c",
     "#end loop",
